@@ -7,9 +7,13 @@ Line-protocol driver for C19 (GenTL C API).  Stateful across lines:
   seq <op> ; <op> ; ...           run one call sequence from the initial  -> <result> ; <result> ...
                                   state (library not initialised)
 
-Ops and results are exactly the strings of /verif/gentl_probe/child.py.
+Ops and results are exactly the strings of /verif/gentl_probe/child.py.  An op with the prefix
+`t2:` is a call made by the child's second thread: the sequence runs through the multi-thread
+model `stepT` (Model/GenTLThreads.lean), thread 1 for `t2:` ops, thread 0 for all others
+(`single_thread_is_run`: without `t2:` ops this is exactly `run` of the single-thread model).
 -/
 import CamVerif.Model.GenTL
+import CamVerif.Model.GenTLThreads
 import Driver.Util
 namespace Driver.C19
 open CamVerif CamVerif.GenTL CamVerif.Wire Driver
@@ -148,12 +152,19 @@ def showResult (c : Call) (r : Result) : String :=
   | .writeStacked k => s!"{r.code} k={k}"
 
 /-- run a sequence, formatting as it goes; an abort prints `panic` and ends the line -/
-def runShow (env : Env) : State → List Call → List String
+def runShow (env : Env) : MState → List (Nat × Call) → List String
   | _, [] => []
-  | s, c :: cs =>
-    match step env s c with
-    | .done s' r => showResult c r :: runShow env s' cs
+  | ms, (t, c) :: cs =>
+    match stepT env ms t c with
+    | .done ms' r => showResult c r :: runShow env ms' cs
     | .abort => ["panic"]
+
+/-- `t2:<op>` = the op on thread 1; everything else on thread 0 -/
+def parseThreadOp (good : Bytes) : List String → Option (Nat × Call)
+  | [] => none
+  | t :: rest =>
+    if t.startsWith "t2:" then (parseOp good ((t.drop 3).toString :: rest)).map fun c => (1, c)
+    else (parseOp good (t :: rest)).map fun c => (0, c)
 
 def splitOps (toks : List String) : List (List String) :=
   let rec go : List String → List String → List (List String) → List (List String)
@@ -169,9 +180,9 @@ def showMap (m : MapDecl) : String :=
     ++ s!" size={m.size} layoutOk={layoutOk 0 m.regs}"
 
 def handleSeq (env : Env) (good : Bytes) (toks : List String) : String :=
-  let ops := (splitOps toks).map (parseOp good)
+  let ops := (splitOps toks).map (parseThreadOp good)
   if ops.any (·.isNone) then "bad-op"
-  else " ; ".intercalate (runShow env (State.init env) (ops.filterMap id))
+  else " ; ".intercalate (runShow env (MState.init env) (ops.filterMap id))
 
 def emptyConsts : ModConsts := ⟨[], [], [], [], [], [], [], 0, 0, 0⟩
 
